@@ -217,4 +217,72 @@ theorem tileSpec_value (l : LoopSpec) (t : TileSpec) (env : String → Int) (xT 
       simp [innerSpec, blockStrideExpr, LoopSpec.header, innerHeader, stride, Header.positiveUpdate, eval, evalBin,
             eval_wrap, wrap_bin, hT, hs]
 
+/-! ### C19: the @dim index tree -/
+
+theorem getD_map_eval (env : String → Int) (l : List Expr) (i : Nat) :
+    (l.map (eval env)).getD i 0 = eval env (l.getD i (.lit 0)) := by
+  simp only [List.getD_eq_getElem?_getD, List.getElem?_map]
+  cases l[i]? <;> simp [eval]
+
+theorem dimIndexExpr_value (env : String → Int) (dims args : List Expr) (order : List Nat) :
+    eval env (dimIndexExpr dims args order)
+      = Occa.Dim.codeIndex (dims.map (eval env)) (args.map (eval env)) order := by
+  unfold dimIndexExpr Occa.Dim.codeIndex
+  cases order.reverse with
+  | nil => simp [eval]
+  | cons last restRev =>
+    simp only
+    have key : ∀ (l : List Nat) (accE : Expr) (accV : Int), eval env accE = accV →
+        eval env (l.foldl (fun index o =>
+          .bin "+" (wrap (args.getD o (.lit 0))) (wrap (.bin "*" (wrap (dims.getD o (.lit 0))) (wrap index)))) accE)
+        = l.foldl (fun index o => (args.map (eval env)).getD o 0 + (dims.map (eval env)).getD o 0 * index) accV := by
+      intro l
+      induction l with
+      | nil => intro accE accV h; simpa using h
+      | cons o t ih =>
+        intro accE accV h
+        simp only [List.foldl_cons]
+        apply ih
+        rw [getD_map_eval, getD_map_eval]
+        generalize args.getD o (.lit 0) = A
+        generalize dims.getD o (.lit 0) = B
+        simp [eval, evalBin, eval_wrap, wrap_bin, h]
+    exact key restRev _ _ (by rw [getD_map_eval])
+
+theorem grouped_getD (l : List Expr) (h : ∀ e ∈ l, Grouped e) (i : Nat) : Grouped (l.getD i (.lit 0)) := by
+  simp only [List.getD_eq_getElem?_getD]
+  cases hi : l[i]? with
+  | none => simp [Grouped, grouped]
+  | some e => exact h e (List.mem_of_getElem? hi)
+
+theorem dimIndexExpr_grouped (dims args : List Expr) (order : List Nat)
+    (hd : ∀ e ∈ dims, Grouped e) (ha : ∀ e ∈ args, Grouped e) : Grouped (dimIndexExpr dims args order) := by
+  unfold dimIndexExpr
+  cases order.reverse with
+  | nil => simp [Grouped, grouped]
+  | cons last restRev =>
+    simp only
+    have key : ∀ (l : List Nat) (acc : Expr), Grouped acc →
+        Grouped (l.foldl (fun index o =>
+          .bin "+" (wrap (args.getD o (.lit 0))) (wrap (.bin "*" (wrap (dims.getD o (.lit 0))) (wrap index)))) acc) := by
+      intro l
+      induction l with
+      | nil => intro acc h; simpa using h
+      | cons o t ih =>
+        intro acc h
+        simp only [List.foldl_cons]
+        apply ih
+        have g1 := grouped_getD args ha o
+        have g2 := grouped_getD dims hd o
+        have p1 := prec_wrap (args.getD o (.lit 0))
+        have p2 := prec_wrap (dims.getD o (.lit 0))
+        have p3 := prec_wrap acc
+        obtain ⟨f1, f2, f3, f4⟩ := prec_facts
+        unfold Grouped at g1 g2 h ⊢
+        generalize args.getD o (.lit 0) = A at g1 p1 ⊢
+        generalize dims.getD o (.lit 0) = B at g2 p2 ⊢
+        simp [grouped, wrap_bin, prec_bin, prec_paren, f1, f3, grouped_wrap, g1, g2, h]
+        omega
+    exact key restRev _ (grouped_getD args ha last)
+
 end Occa.LoopExpr
